@@ -5,7 +5,7 @@ C01 part B2 — `combine_legs` with spectator legs and several groups. Part 1: l
 * `pick` (gather by an index list) against `qOf` / `wOf` / `blockShapeOf`, `InRange` of mapped lists,
 * a fold of `insertAt` with ascending positions, entry by entry.
 -/
-namespace TenpyModel.C01B2
+namespace TenpyModel.C01B2.Comb
 open TenpyModel.Core TenpyModel.C01B
 
 /-! ### merging consecutive axes -/
@@ -123,4 +123,4 @@ theorem InRange_pick (idx S : List Nat) (h : InRange idx S) (c : List Nat) (hc :
   intro x hx
   exact h.getD_lt x (by rw [h.length_eq]; exact hc x hx)
 
-end TenpyModel.C01B2
+end TenpyModel.C01B2.Comb
